@@ -50,6 +50,35 @@ theorem escape_bytes (s : Str) (hs : s.all isScalar = true) :
     xhtmlEscapeSB (.b (s.flatMap encC)) = .ok (xhtmlEscape s) := by
   simp [xhtmlEscapeSB, toStr, utf8Decode_flatMap_encC s hs, Except.map, xhtmlEscape]
 
+/-- escaping keeps a surrogate-free text surrogate-free (so the escaped text always has a UTF-8 form) -/
+theorem escape_scalar (s : Str) (hs : s.all isScalar = true) : (xhtmlEscape s).all isScalar = true := by
+  unfold xhtmlEscape
+  rw [htmlEscape_eq_flatMap]
+  simp only [List.all_eq_true, List.mem_flatMap] at hs ⊢
+  rintro c ⟨x, hx, hc⟩
+  have hxs := hs x hx
+  unfold escC at hc
+  (repeat' split at hc) <;> simp [ampE, ltE, gtE, quotE, aposE] at hc <;>
+    first
+      | (subst hc; exact hxs)
+      | (rcases hc with h | h | h | h | h | h <;> subst h <;> decide)
+      | (rcases hc with h | h | h | h | h <;> subst h <;> decide)
+      | (rcases hc with h | h | h | h <;> subst h <;> decide)
+
+/-- the whole round trip through BYTES: `xhtml_escape(utf8(s))` succeeds with the escape `e` of `s`, and
+`xhtml_unescape(utf8(e)) = s` — for every surrogate-free `s`, in particular when `s` starts with U+FEFF
+(whose UTF-8 form `EF BB BF` a BOM-stripping decoder would drop). -/
+theorem unescape_escape_bytes (T : Table) (hT : HasBasicEntities T) (s : Str) (hs : s.all isScalar = true) :
+    xhtmlEscapeSB (.b (s.flatMap encC)) = .ok (xhtmlEscape s)
+      ∧ xhtmlUnescapeSB T (.b ((xhtmlEscape s).flatMap encC)) = .ok s := by
+  refine ⟨escape_bytes s hs, ?_⟩
+  simp [xhtmlUnescapeSB, toStr, utf8Decode_flatMap_encC _ (escape_scalar s hs), Except.map, unescape_escape T hT s]
+
+example : xhtmlUnescapeSB basicTable (.b ((xhtmlEscape [0xFEFF, 60]).flatMap encC)) = .ok [0xFEFF, 60] :=
+  (unescape_escape_bytes basicTable ⟨rfl, rfl, rfl, rfl⟩ [0xFEFF, 60] (by decide)).2
+example : toUnicode (.bytes [0xEF, 0xBB, 0xBF]) = .ok (.str [0xFEFF]) := by rfl
+example : toUnicode (.bytes [0xEF, 0xBB, 0xBF, 0xEF, 0xBB, 0xBF, 0x61]) = .ok (.str [0xFEFF, 0xFEFF, 0x61]) := by rfl
+
 /-! ## URL -/
 
 /-- `url_unescape(url_escape(s, plus), plus=plus) == s` and the bytes-returning form gives `utf8(s)`,
